@@ -15,13 +15,13 @@ void gh_acquired(int acq0, int obs_before) noexcept;      // called right after 
 void gh_released(void) noexcept;                           // called right before the unlock
 void gh_set_obsolete(void) noexcept;                       // called right after unlock_and_obsolete() returned
 }
-static void finish() { gh_done(); }
+static void finish(bool announce = true) { if (announce) gh_done(); }
 
 // ---- reader: open, read both words, validate with check() or try_read_unlock()
-static void reader(bool use_check) {
+static void reader(bool use_check, bool announce = true) {
   int d0, d1, o0; gh_snap(&d0, &d1, &o0);
   auto rcs = lk.try_read_lock();
-  if (rcs.must_restart()) { finish(); return; }
+  if (rcs.must_restart()) { finish(announce); return; }
   PROP(!o0, "C07: no read section can be opened once the lock is obsolete");
   int acq0, wa0, d2; gh_snap(&acq0, &wa0, &d2);
   const std::uint64_t x = a.load();
@@ -33,16 +33,16 @@ static void reader(bool use_check) {
     PROP(acq1 == acq0 && wa0 == 0 && wa1 == 0, "C07: a validated read section did not overlap any write-locked period");
     PROP(!o1, "C07: a section still open when the lock became obsolete fails its next check");
   }
-  finish();
+  finish(announce);
 }
 extern "C" void t_reader_check(void) { reader(true); }
 extern "C" void t_reader_unlock(void) { reader(false); }
 
 // ---- writer: open, upgrade, two-word write, unlock (or unlock_and_obsolete)
-static void writer(int mode) {   // 0: destructor unlock, 1: unlock(), 2: unlock_and_obsolete()
+static void writer(int mode, bool announce = true) {   // 0: destructor unlock, 1: unlock(), 2: unlock_and_obsolete()
   int d0, d1, o0; gh_snap(&d0, &d1, &o0);
   auto rcs = lk.try_read_lock();
-  if (rcs.must_restart()) { finish(); return; }
+  if (rcs.must_restart()) { finish(announce); return; }
   PROP(!o0, "C07: no read section can be opened once the lock is obsolete");
   int acq0, d2, o1; gh_snap(&acq0, &d2, &o1);
   {
@@ -56,7 +56,7 @@ static void writer(int mode) {   // 0: destructor unlock, 1: unlock(), 2: unlock
       else if (mode == 2) { g.unlock_and_obsolete(); gh_set_obsolete(); }
     }
   }
-  finish();
+  finish(announce);
 }
 extern "C" void t_writer(void) { writer(0); }
 extern "C" void t_writer_unlock(void) { writer(1); }
@@ -81,3 +81,9 @@ extern "C" void t_rehydrate(void) {
   finish();
 }
 
+
+// ---- two operations per thread (deeper bound): the second operation starts after the first completed
+extern "C" void t_reader_then_writer(void) { reader(true, false); writer(1, false); finish(); }
+extern "C" void t_writer_then_reader(void) { writer(0, false); reader(false, false); finish(); }
+extern "C" void t_writer_twice(void) { writer(1, false); writer(0, false); finish(); }
+extern "C" void t_writer_then_obsolete(void) { writer(1, false); writer(2, false); finish(); }
